@@ -35,9 +35,18 @@ def budget(tier):
     return {"examples": 4800, "shrink_cap_s": 280, "wall_cap_s": 3300}
 
 
+def doc_maker(g, what, n):
+    """One to three lines; sometimes a second paragraph (summaries then end in a 'Read more' link to the full text)."""
+    lines = [" " + " ".join(f"zq{n}x{i}w{j}" for j in range(g.ch.count(1, 3))) for i in range(g.ch.count(1, 2))]
+    if g.ch.bool(1, 3):
+        lines += ["", f" zq{n}x8w0 second paragraph"]
+    g.entity_docs[n] = what
+    return lines
+
+
 def shape_cfg(shape):
     # "outside": some type-bound procedures are bound to procedures of a module that is not part of the project
-    cfg = {"docs": True, "late_access": True, "outside": True}
+    cfg = {"docs": True, "late_access": True, "outside": True, "doc_maker": doc_maker}
     if shape == "one-file":
         cfg.update(max_files=1, max_units=2)
     elif shape == "program-only":
